@@ -64,3 +64,10 @@ claim("C11",
       "Decides the configuration clauses: the regex syntax/meta builder chains carry unicode(false), utf8(false), LeftmostFirst, utf8_empty(false) and the limits from the parser settings, is_match is the unanchored byte search; wildcard builder: `?` disabled, case_insensitive(!STRICT), whole-value is_match; validate (count > limit, `**`) precedes construction and all failures are parse errors; operator->Wildcard<STRICT> wiring; the only quoted-regex rewrite is dropping the backslash before a quote outside a class. Engine semantics are trusted.",
       TB + " regex-automata and wildcard crate semantics are trusted.",
       "builder-chain constant extraction (HIR) vs. spec")
+claim("C02",
+      "Thin claim, stated plainly: decides the any/all reduction table and the false default for an absent boolean-array value, element-wise combination with truncation to the shorter operand in all three vector arms (and their agreement), element-wise not, the empty result for an absent container in every vector strategy, whole-collection in-order iteration, Option-returning (non-panicking) index/key access, BTreeMap storage (ascending keys) and the (container, index kind) tables shared with C04. The MapEachIterator traversal (row-major order, flattening) and the agreement of the three strategies are NOT decided.",
+      TB, "HIR table extraction + sibling agreement of the three vector arms")
+claim("C07",
+      "Decides: the alias table (33 spellings -> unit variants, no shadowing), the whitespace set, unit-only operator enums and absence of source text in AST nodes, Eq=>Hash for all hand-written Hash impls, pairwise-distinct operator names reaching JSON (one per variant), JSON fields == compared fields for nodes with skipped fields, parser flattening of same-operator chains, and that the C-API hash hashes exactly the JSON byte stream. That the JSON is the canonical document of an arbitrary tree and FNV arithmetic are not decided.",
+      TB + " Derived serde impls and serde_json are trusted.",
+      "HIR/ADT table rules + sibling (eq/hash/serialize) agreement")
